@@ -330,6 +330,127 @@ example : upload ⟨false, none, .ack⟩ exBatch = (true, exBatch) ∧
     (upload ⟨true, none, .ack⟩ exBatch).1 = false ∧ upload ⟨true, some 0, .err⟩ [] = (true, []) := by
   decide
 
+/-! ### From the server to the backend (`mainmw.recordQueryInfo`, recorder, `BillStat.Upload`) -/
+
+/-- **billed_iff.** The server bills a handled query exactly when it answered it and the request
+was attributed to a device; then under that device's id, with the request's start time, the
+client's country and ASN (none / 0 when GeoIP does not know the address) and the server's
+protocol. -/
+theorem billed_iff (q : Query) (d : Dev) (m : Meta) :
+    billOf q = some (d, m) ↔
+      q.answered = true ∧ q.dev = some d ∧
+        m = ⟨q.start, (q.loc.map (·.1)).getD 0, (q.loc.map (·.2)).getD 0, q.proto⟩ := by
+  unfold billOf
+  cases ha : q.answered <;> cases hd : q.dev <;> cases hl : q.loc <;> simp [eq_comm]
+
+/-- **billing_ignores_querylog.** Whether the profile has query logging enabled does not matter. -/
+theorem billing_ignores_querylog (q : Query) (b : Bool) : billOf { q with qlog := b } = billOf q := rfl
+
+def exQuery (d : Option Dev) (t : Int) : Query :=
+  { dev := d, loc := some (1, 42), start := t, proto := 2, qlog := false }
+
+example : billOf (exQuery (some 0) 5) = some (0, ⟨5, 1, 42, 2⟩) ∧ billOf (exQuery none 5) = none ∧
+    billOf { exQuery (some 0) 5 with answered := false } = none ∧
+    billOf { exQuery (some 0) 5 with loc := none } = some (0, ⟨5, 0, 0, 2⟩) := by decide
+
+/-- **e2e_is_recorder_run.** A history of handled queries, refresh starts and uploads that run
+against backends of any behaviour is a run of the serialised recorder: every theorem above
+applies to it, with `billed` for the number of records and `lastBilled` for the latest data. -/
+theorem e2e_is_recorder_run (evs : List Ev) (d : Dev) :
+    (E2E.init.run evs).st = runSer St.init (lower St.init evs) ∧
+    countRec d (lower St.init evs) = billed d evs ∧ lastRec d (lower St.init evs) = lastBilled d evs :=
+  ⟨e2e_run_st E2E.init evs, countRec_lower St.init evs d, lastRec_lower St.init evs d⟩
+
+/-- **e2e_conservation.** Server, recorder, production uploader and backend together: after any
+history — queries of any devices, with or without profile, refreshes, uploads against backends
+that refuse the stream, fail at the k-th message, fail at the end, or acknowledge — the queries
+the backend was told on streams it acknowledged + the queries still held (pending or in the
+upload in flight) = the queries the server answered for the device.  Hypothesis `GoodRun`: each
+upload ranges over its whole batch, every key once (what Go's `range` over a map does), and no
+device has 2³² or more queries in one batch. -/
+theorem e2e_conservation (evs : List Ev) (hg : GoodRun E2E.init evs) (d : Dev) :
+    (E2E.init.run evs).acked d + cnt (E2E.init.run evs).st.pending d
+      + sumIn (E2E.init.run evs).st.inflight d = billed d evs := by
+  have ha := e2e_acked_run E2E.init evs d rfl hg
+  have hs := e2e_run_st E2E.init evs
+  have hc := conservation_serialised (lower St.init evs) d
+  rw [countRec_lower] at hc
+  rw [ha, hs]
+  exact hc
+
+/-- **e2e_latest_meta.** Whatever is held for a device carries the start time, client country,
+ASN and protocol of the most recent query the server answered for it. -/
+theorem e2e_latest_meta (evs : List Ev) (d : Dev) (r : Rec)
+    (h : (E2E.init.run evs).st.pending d = some r) : lastBilled d evs = some r.m := by
+  rw [e2e_run_st] at h
+  have := (latest_meta (lower St.init evs)).2.1 d r h
+  rwa [lastRec_lower] at this
+
+/-- **e2e_acknowledged_stream.** When an upload succeeds, the stream the backend acknowledged
+consists of exactly one message per device of the batch — `recordToProtobuf` of its record —
+and of nothing else; the batch leaves the recorder.  When it fails, nothing is acknowledged. -/
+theorem e2e_acknowledged_stream (e : E2E) (b : Backend) (order : List Dev) (batch : Batch)
+    (hb : e.st.inflight[0]? = some batch) :
+    ((upload b (wireBatch order batch.recs)).1 = true →
+      (e.step (.finish b order)).streams = e.streams ++ [wireBatch order batch.recs] ∧
+      ∀ w, w ∈ wireBatch order batch.recs ↔ ∃ d, d ∈ order ∧ ∃ r, batch.recs d = some r ∧ w = toWire d r) ∧
+    ((upload b (wireBatch order batch.recs)).1 = false →
+      (e.step (.finish b order)).streams = e.streams ∧ (e.step (.finish b order)).acked = e.acked) := by
+  constructor
+  · intro hu
+    refine ⟨?_, fun w => mem_wireBatch order batch.recs w⟩
+    simp only [E2E.step, hb, hu, if_true]
+    rw [upload_ok_sent b _ hu]
+  · intro hu
+    simp [E2E.step, hb, hu]
+
+def exEvs : List Ev :=
+  [.query (exQuery (some 0) 1), .query (exQuery none 2), .begin, .query (exQuery (some 0) 3),
+   .finish ⟨false, none, .err⟩ [0], .begin, .finish ⟨false, none, .ack⟩ [0]]
+
+example : billed 0 exEvs = 2 ∧ lastBilled 0 exEvs = some ⟨3, 1, 42, 2⟩ ∧
+    (E2E.init.run exEvs).acked 0 = 2 ∧ (E2E.init.run exEvs).streams.length = 1 ∧
+    (E2E.init.run exEvs).st.inflight.length = 0 := by decide
+
+/-- A history with an upload satisfies `GoodRun` (the map of one device is ranged as `[0]`). -/
+example : GoodRun E2E.init [.query (exQuery (some 0) 1), .begin, .finish ⟨false, none, .ack⟩ [0]] := by
+  simp only [goodRun_cons, GoodEv, true_and]
+  refine ⟨?_, by simp [GoodRun]⟩
+  intro batch hb
+  simp [E2E.step, E2E.init, lowerEv, billOf, exQuery, runSer, stepSer, blocked, step, St.init] at hb
+  subst hb
+  refine ⟨⟨by simp, ?_⟩, ?_⟩
+  · intro d hd
+    by_cases h0 : d = 0
+    · simp [h0]
+    · simp [record, put, Recs.empty, h0] at hd
+  · intro d
+    by_cases h0 : d = 0 <;> simp [cnt, record, put, Recs.empty, h0]
+
+/-- **bulk_eq_iterate.** `n` identical `Record` calls (what the driver's `recn` computes in
+closed form) are `n` single steps of the recorder. -/
+theorem bulk_eq_iterate (s : St) (d : Dev) (m : Meta) (n : Nat) :
+    bulk s d m n = Nat.repeat (fun x => step x (.record d m)) n s := by
+  induction n with
+  | zero => simp [bulk, Nat.repeat]
+  | succ n ih =>
+    simp only [Nat.repeat, ← ih]
+    by_cases hn : n = 0
+    · subst hn
+      simp only [bulk, step, recordN, record, cnt]
+      cases h : s.pending d <;> simp [h, Nat.add_comm]
+    · simp only [bulk, hn, step, recordN, record, cnt, put, if_false, Nat.succ_ne_zero]
+      simp only [if_true]
+      congr 1
+      · funext k
+        by_cases hk : k = d <;> simp [hk, put, Nat.add_assoc]
+      · funext k
+        by_cases hk : k = d <;> simp [hk, Nat.add_assoc]
+      · funext k
+        by_cases hk : k = d <;> simp [hk]
+
+example : (bulk St.init 0 (exMeta 1) 3).pending 0 = some ⟨exMeta 1, 3⟩ := by decide
+
 /-- The latest-meta clause as a statement about a recorder whose refreshes may overlap. -/
 def LatestMetaUnserialised : Prop :=
   ∀ (ops : List Op) (d : Dev) (r : Rec), (run St.init ops).pending d = some r → lastRec d ops = some r.m
@@ -381,6 +502,13 @@ example : countRec 0 exOps < 2 ^ 31 := by decide
 #print axioms wire_time_exact
 #print axioms upload_ok_complete
 #print axioms upload_ok_iff
+#print axioms billed_iff
+#print axioms billing_ignores_querylog
+#print axioms e2e_is_recorder_run
+#print axioms e2e_conservation
+#print axioms e2e_latest_meta
+#print axioms e2e_acknowledged_stream
+#print axioms bulk_eq_iterate
 
 end Agd.BillStat
 #print axioms Agd.Tie.TrC16.translation_complete
